@@ -467,7 +467,12 @@ Definition with_per_occurrence (b : bool) (F : facts) : facts :=
      f_cron_window_s := f_cron_window_s F; f_cron_min_interval_s := f_cron_min_interval_s F;
      f_cron_tolerance_s := f_cron_tolerance_s F; f_cron_window_inclusive := f_cron_window_inclusive F;
      f_cron_min_interval_strict := f_cron_min_interval_strict F;
-     f_cron_first_poll_checked := f_cron_first_poll_checked F |}.
+     f_cron_first_poll_checked := f_cron_first_poll_checked F;
+     f_cron_storage_read_always := f_cron_storage_read_always F;
+     f_mem_source_filter_exact := f_mem_source_filter_exact F;
+     f_sqlite_source_filter_exact := f_sqlite_source_filter_exact F;
+     f_mem_pending_read_complete := f_mem_pending_read_complete F;
+     f_sqlite_pending_read_complete := f_sqlite_pending_read_complete F |}.
 
 (* two events pending, OR trigger: the second launch does not carry the second event's arguments *)
 Lemma or_args_refuted : forall F, f_per_occurrence F = false ->
@@ -628,3 +633,33 @@ Proof. intros b ->. exact atomic_claim_at_most_once. Qed.
 Theorem cas_flags_fire_once : forall a r, a = true -> r = true ->
   forall n v0 sched, NoDup (cv_fired (casrun a r (casworld0 n v0) sched)).
 Proof. intros a r -> ->. exact cas_fires_once_per_value. Qed.
+
+(* ------------------------------------------------------------------ partial reads of the pending valid conditions *)
+Lemma iteration_lim_complete : forall F n trigs s, iteration_lim F true n trigs s = iteration F trigs s.
+Proof.
+  intros F n trigs s. unfold iteration_lim, iteration, visible. f_equal.
+  rewrite fold_trigger_pending. apply filter_ext_in. intros v Hv.
+  assert (E : inb v (pending s) = true) by (apply inb_true; exact Hv). rewrite E. reflexivity.
+Qed.
+
+(* a bounded read: with two events pending and a prefix of one, the iteration launches once and the second event
+   stays pending; with one occurrence of an unsatisfied AND trigger ahead of it, an event is never launched *)
+Lemma bounded_read_refuted : forall F,
+  let s2 := run F false [t_or_event] [ORecord 0 (ev 1); ORecord 0 (ev 2)] in
+  length (launched (iteration_lim F false 1 [t_or_event] s2)) = 1
+  /\ length (pending (iteration_lim F false 1 [t_or_event] s2)) = 1
+  /\ let s3 := run F false [t_or_event; t_and_two] [ORecord 5 (ev 1); ORecord 0 (ev 2)] in
+     launched (iteration_lim F false 1 [t_or_event; t_and_two] (iteration_lim F false 1 [t_or_event; t_and_two] s3)) = [].
+Proof.
+  intros F. destruct F as [guards clr perocc a1 a2 a3 a4 a5 a6 a7 a8 a9 a10 a11 a12 a13 a14 a15 a16 a17 a18 a19 a20 a21 a22 a23].
+  destruct guards, perocc; vm_compute; repeat split; reflexivity.
+Qed.
+
+(* occurrence routing *)
+Lemma reaches_exact : forall c o, reaches true c o = true -> kind_of c = o_kind o.
+Proof. intros c o H. unfold reaches in H. cbn [negb andb] in H. rewrite orb_false_r in H. apply Nat.eqb_eq. exact H. Qed.
+
+Lemma reaches_subclass_refuted :
+  reaches false 1 {| o_kind := 2; o_src := 1; o_aux := 0; o_n := 1 |} = true
+  /\ reaches false 1 {| o_kind := 3; o_src := 1; o_aux := 0; o_n := 1 |} = true.
+Proof. split; reflexivity. Qed.
